@@ -5,7 +5,7 @@
    the language of its grammar, never panics, and rejects at the first bad token. *)
 From Coq Require Import List Arith Lia Bool Sorting.Sorted Permutation.
 From Kiki Require Import Base.Ord Base.OrdProofs Base.Chars Data DataProofs Oset.Model Oset.Proofs Ast.ValidateProofs Ast.VWF
-  LR.Driver LR.Grammar LR.Inv LR.Validate LR.ValidateProofs
+  LR.Driver LR.Grammar LR.Inv LR.Viable LR.Validate LR.ValidateProofs
   Build.Machine Build.Table Build.TableProofs Build.FillProofs Build.TableSpec Build.ClosureProofs Build.LoopProofs
   Build.LoopInv Build.NormProofs Build.MachineSpec Build.FirstProofs Emit.Parser Emit.PtableProofs.
 Import ListNotations.
@@ -482,6 +482,41 @@ Section Gen.
       intros s x Hs Hg. apply goto_sym_trans in Hg as (trn & Htin & _ & Hto & _). rewrite Hstart in Hto.
       apply (mi_trans_bound cx m HM trn Htin). exact Hto.
   Qed.
+
+  (* ---------- every item is reached from the kernel of its state ---------- *)
+
+  Lemma reach_in_state st K it0 : closed cx st -> incl K st -> reach cx K it0 -> In it0 st.
+  Proof. intros Hc Hk H. induction H as [it Hin|jt it _ IH Himp]; [apply Hk, Hin|apply (Hc jt it IH Himp)]. Qed.
+
+  Theorem gen_Inv3 : Inv3 pt ann.
+  Proof.
+    destruct pt_fields as (Hstart & _ & _ & _). split.
+    - intros s it Hin. apply In_state_iff in Hin as (st & it0 & Hst & Hit & ->).
+      destruct (mi_states cx m HM s st Hst) as (_ & Hclosed & _ & Hj).
+      pose proof (mi_reach cx m HM s st it0 Hst Hit) as Hr.
+      assert (Hk : incl (kernel st) st) by (intros y Hy; apply filter_In in Hy; apply Hy).
+      clear Hit. induction Hr as [it0 Hker|jt0 it0 Hrj IH Himp].
+      + apply filter_In in Hker as (Hit & Hk0). apply lr_kernel; [apply In_state_iff; eauto|]. cbn [tr idot irule].
+        unfold is_kernel in Hk0. destruct (Nat.eqb_spec (it_dot it0) 0) as [E|Hne]; [|left; lia]. cbn in Hk0.
+        destruct (it_rule it0) eqn:Er; [discriminate|]. right. split; [reflexivity|]. rewrite Hstart.
+        destruct (Hj it0 Hit E) as [(_ & ->)|(jt & _ & Hi)]; [reflexivity|].
+        destruct (implied_by_wf cx jt it0 Hi) as (_ & _ & Hne). congruence.
+      + pose proof (reach_in_state st _ jt0 Hclosed Hk Hrj) as Hjt.
+        destruct Himp as (syms & B & r & ru & la & Hrs & Hnth & Hru & HB & _ & ->). rewrite Hcx_rules in Hru.
+        destruct (Forall2_nth_l _ _ _ prules_rel r ru Hru) as (pru & Hpr & Hprule). destruct (prule_parts ru pru Hprule) as (Hl & _ & _).
+        destruct (item_view _ _ _ Hst Hjt) as (syms' & ps & Hrs' & Hd & Hps & HR & Had). rewrite Hrs in Hrs'. injection Hrs' as <-.
+        destruct (Forall2_nth_l _ _ _ HR _ _ Hnth) as (p & Hp & HpR). apply R_N in HpR as (c & -> & Hc).
+        rewrite <- HB, Hl in Hc. injection Hc as <-.
+        apply (lr_call pt ann s (tr jt0) _ r pru (skipn (S (it_dot jt0)) ps)); [exact IH| |reflexivity|exact Hpr|reflexivity].
+        rewrite Had. f_equal. apply nth_skipn_cons, Hp.
+    - intros s n s' Hs Hg. assert (Hgs : goto_sym pt s (PN n) = Some s') by (cbn [goto_sym]; rewrite Hg; reflexivity).
+      apply goto_sym_trans in Hgs as (trn & Htin & <- & _ & HRx).
+      destruct (mi_sym cx m HM trn Htin) as (sf & it0 & Hsf & Hit & Hn).
+      destruct (item_view _ _ _ Hsf Hit) as (syms & ps & Hrs & Hd & Hps & HR & Had).
+      unfold next_sym in Hn. rewrite Hrs in Hn. destruct (Forall2_nth_l _ _ _ HR _ _ Hn) as (p & Hp & HpR).
+      pose proof (R_fun _ _ _ HpR HRx) as ->.
+      exists (tr it0), (skipn (S (it_dot it0)) ps). split; [apply In_state_iff; eauto|]. rewrite Had. f_equal. apply nth_skipn_cons, Hp.
+  Qed.
 End Gen.
 
 (* ---------- the construction as a whole ---------- *)
@@ -521,7 +556,7 @@ Theorem generated_tables_invariants hot hoa fu v m t pt :
   VWF v -> (forall l, Permutation (hot l) l) -> perm_ho hoa ->
   validated_ast_to_machine hot fu v = Ok m -> machine_to_table hoa m v = Ok t -> ptable_of v t = Some pt ->
   exists (ann : list (list Grammar.item)) (ft : first_table),
-    Inv pt ann (fseq ft) /\ Inv2 pt ann /\ (forall P (kind : P -> nat), FirstOK kind pt (fseq ft)).
+    Inv pt ann (fseq ft) /\ Inv2 pt ann /\ (forall P (kind : P -> nat), FirstOK kind pt (fseq ft)) /\ Inv3 pt ann.
 Proof.
   intros HV Hpt Hpa Hm Ht HP. unfold validated_ast_to_machine in Hm.
   apply bind_ok in Hm as (cx & Hcx & Hm). apply bind_ok in Hm as (start & Hstart & Hm).
@@ -532,8 +567,9 @@ Proof.
   { intros n fs u Hg Hu. destruct (fi_occurs _ _ HFI n fs u Hg Hu) as (ru & Hru & Hs). exists ru. auto. }
   pose proof (machine_spec cx Hfmok hot (fu_build fu) (fu_closure fu) m start Hpt Hstart Hm) as HM.
   pose proof (machine_to_table_spec m v hoa t Hpa Ht) as HT.
-  exists (ann v m), (ft v cx). split; [|split].
+  exists (ann v m), (ft v cx). split; [|split; [|split]].
   - apply gen_Inv with (t := t) (cx := cx); try assumption; reflexivity.
   - apply gen_Inv2 with (t := t) (cx := cx); try assumption; reflexivity.
   - intros P kind. apply gen_FirstOK with (m := m) (t := t) (cx := cx); try assumption; reflexivity.
+  - apply gen_Inv3 with (t := t) (cx := cx); try assumption; reflexivity.
 Qed.
